@@ -175,10 +175,11 @@ pub fn enrich(doc: &mut Doc, t: &mut Tape) -> Option<String> {
     fn walk(s: &mut State, t: &mut Tape, k: &mut usize) {
         *k += 1;
         if !s.is_history() {
-            if t.chance(25) {
+            let may_have_data = matches!(s.kind, Kind::State | Kind::Parallel);
+            if may_have_data && t.chance(25) {
                 s.data.push(DataDecl { id: format!("d{}", *k), expr: Some(X::Raw(raw(t))) });
             }
-            if t.chance(10) {
+            if may_have_data && t.chance(10) {
                 s.data.push(DataDecl { id: format!("t{}", *k), expr: Some(X::Raw(format!("TEXT:{}", RAW_TEXT[t.below(RAW_TEXT.len())]))) });
             }
             if t.chance(45) {
